@@ -20,10 +20,12 @@ func CheckRegistryTrace(calls []RegCall) []Violation {
 		ef       int
 		failed   bool
 		lastFacx int
-		hasF     bool   // an early-reference factory was registered in the running attempt
-		facErr   bool   // the factory body of the attempt that just ended returned an error
-		pubInAtt bool   // the running attempt published its own name itself (AddSingleton)
-		facSeen  []bool // stack: did the goc currently running invoke its factory?
+		hasF     bool         // an early-reference factory was registered in the running attempt
+		facErr   bool         // the factory body of the attempt that just ended returned an error
+		attProx  []int        // wrapped versions (proxies) handed out during the running attempt
+		deadProx map[int]bool // wrapped versions that failed attempts had created
+		pubInAtt bool         // the running attempt published its own name itself (AddSingleton)
+		facSeen  []bool       // stack: did the goc currently running invoke its factory?
 	}
 	states := map[string]*st{}
 	get := func(n string) *st {
@@ -40,6 +42,13 @@ func CheckRegistryTrace(calls []RegCall) []Violation {
 	}
 	for idx, c := range calls {
 		s := get(c.Name)
+		if c.Proxy && c.Ref != 0 && !c.Err && (c.Op == "efx" || c.Op == "get" || c.Op == "getE" || c.Op == "facx" || c.Op == "goc-exit") {
+			if s.deadProx[c.Ref] {
+				add("wrapped-version-of-failed-attempt-reused", c.Name, fmt.Sprintf("ref %d, a wrapped version of %q that a FAILED creation attempt had created, came back with a nil error (%s): nothing of a failed attempt may stay visible", c.Ref, c.Name, c.Op), idx)
+			} else if s.creating > 0 {
+				s.attProx = append(s.attProx, c.Ref)
+			}
+		}
 		switch c.Op {
 		case "goc-enter":
 			s.facSeen = append(s.facSeen, false)
@@ -76,6 +85,13 @@ func CheckRegistryTrace(calls []RegCall) []Violation {
 					}
 					s.failed = true
 					s.early, s.ef, s.hasF = 0, 0, false
+					if s.deadProx == nil {
+						s.deadProx = map[int]bool{}
+					}
+					for _, r := range s.attProx {
+						s.deadProx[r] = true
+					}
+					s.attProx = nil
 					if s.pubInAtt {
 						// what the failed attempt published itself is part of the failed attempt
 						s.pub, s.pubInAtt = 0, false
@@ -89,6 +105,7 @@ func CheckRegistryTrace(calls []RegCall) []Violation {
 					s.pub = c.Ref
 					s.failed = false
 					s.early, s.ef, s.hasF = 0, 0, false
+					s.attProx = nil
 				}
 			} else {
 				// no factory call: must be a cache hit of the published instance
@@ -163,7 +180,7 @@ func CheckRegistryTrace(calls []RegCall) []Violation {
 			s.failed = false
 			s.pubInAtt = s.creating > 0
 		case "remove":
-			*s = st{facSeen: s.facSeen, creating: s.creating}
+			*s = st{facSeen: s.facSeen, creating: s.creating, deadProx: s.deadProx, attProx: s.attProx}
 		case "addF":
 			if s.creating > 0 {
 				s.hasF = true
@@ -257,6 +274,58 @@ func (w *World) CheckContinuation(out *Outcome, o *Obs) []Violation {
 		if t.APS {
 			if e, ok := lastInit["aps"+c.Inst]; ok && e.Detail == "FAULT" {
 				vs = append(vs, v("C04", "half-built-instance-returned", c.Inst, fmt.Sprintf("after the failed start GetComponentByName(%s) returned the instance with a nil error although its last AfterPropertiesSet failed", c.Inst)))
+			}
+		}
+	}
+	return vs
+}
+
+// CheckEarlyOnce is the callback-level half of "one early reference per creation": within one
+// creation attempt of a component every smart post-processor is asked for its early reference
+// at most once (the registry runs the early-reference factory once and hands the result to
+// everybody who asks; nobody builds an early reference behind its back).
+func (w *World) CheckEarlyOnce(o *Obs) []Violation {
+	var vs []Violation
+	type span struct{ from, to int }
+	attempts := map[string][]span{}
+	open := map[string][]int{}
+	for _, c := range o.Reg {
+		switch c.Op {
+		case "fac":
+			open[c.Name] = append(open[c.Name], c.Seq)
+		case "facx":
+			if n := len(open[c.Name]); n != 0 {
+				attempts[c.Name] = append(attempts[c.Name], span{open[c.Name][n-1], c.Seq})
+				open[c.Name] = open[c.Name][:n-1]
+			}
+		}
+	}
+	for _, name := range sdl.SortedKeys(attempts) {
+		if w.instByName(name) == "" {
+			continue
+		}
+		for _, a := range attempts[name] {
+			cnt := map[string]int{}
+			for _, e := range o.Events {
+				if e.Kind != "early" || e.Seq < a.from || e.Seq > a.to {
+					continue
+				}
+				if p, n := procOf(e.Subj); n == name {
+					cnt[p]++
+				}
+			}
+			// an invocation of the early-reference factory that ended in an error produced nothing;
+			// the next request runs it again
+			failedRuns := 0
+			for _, c := range o.Reg {
+				if c.Op == "efx" && c.Name == name && c.Err && c.Seq >= a.from && c.Seq <= a.to {
+					failedRuns++
+				}
+			}
+			for _, p := range sdl.SortedKeys(cnt) {
+				if cnt[p] > 1+failedRuns {
+					vs = append(vs, v("C04", "early-reference-built-more-than-once", name, fmt.Sprintf("within one creation of %s (registry events %d..%d) processor %s was asked for the early reference %d times: an early reference was built outside the one the cache hands out", name, a.from, a.to, p, cnt[p])))
+				}
 			}
 		}
 	}
